@@ -3,6 +3,8 @@
 ID=$1; TIER=${2:-quick}
 P=${ID%%-*}
 cd /repo || exit 2
+# evidence of runs on PATCHED trees goes to a scratch directory, never to /verif/evidence
+export VERIF_EVIDENCE_DIR=/verif/build/eval-evidence; mkdir -p $VERIF_EVIDENCE_DIR
 git diff --quiet || { echo "repo dirty"; exit 2; }
 git apply /verif/seeded/$ID/patch.diff || { echo "patch does not apply"; exit 2; }
 /verif/check $P --tier $TIER > /tmp/seedrun_$ID.out 2>&1; RC=$?
